@@ -232,15 +232,21 @@ def timeoutBranch (i : LiveIn) (s : LState) : PRes × LState :=
 /-- `Liveness.Reconcile` on the conditions as the earlier sub-reconcilers left them: (error, final state).
     `timeUntilTimeout := Timeout - clock.Since(lastTransition); timeUntilTimeout > 0` is written
     `now - lastTransition < Timeout`. -/
+def launchPart (i : LiveIn) (launched : Tri) (launchedAt : Int) (s₀ : LState) : PRes × LState :=
+  if launched != .true_ then
+    if i.now - launchedAt < launchTimeout then (.stop false, s₀)
+    else
+      -- (repaired) the launch-timeout branch returns after its Delete instead of falling through to the
+      -- registration timeout
+      match timeoutBranch i s₀ with
+      | (.continue, s) => (.stop false, s)
+      | r => r
+  else (.continue, s₀)
+
 def liveness (i : LiveIn) (launched : Tri) (launchedAt : Int) (s₀ : LState) : Bool × LState :=
   if i.registered == .true_ then (false, s₀)
   else
-    let r : PRes × LState :=
-      if launched != .true_ then
-        if i.now - launchedAt < launchTimeout then (.stop false, s₀)
-        else timeoutBranch i s₀
-      else (.continue, s₀)
-    match r with
+    match launchPart i launched launchedAt s₀ with
     | (.stop e, s) => (e, s)
     | (.continue, s) =>
       if i.now - i.registeredAt < registrationTimeout then (false, s)
